@@ -300,6 +300,10 @@ func e1RunWordInner(sc e1Scen, word []sym, scratch string, props map[string]bool
 		defer os.RemoveAll(dir)
 	}
 	r, err := newE1(sc.Cfg, dir)
+	if err != nil && sc.Cfg.MayRefuse {
+		// a configuration Start is entitled to refuse: nothing to explore
+		return &e1run{cfg: sc.Cfg, model: newModel(sc.Cfg), uris: map[string]*uriInfo{}, writeErrAt: -1, closed: true, writeErr: "Start refused: " + err.Error()}, -1, nil
+	}
 	if err != nil {
 		return nil, -1, fmt.Errorf("Start failed for %s: %v", sc.Cfg, err)
 	}
